@@ -127,7 +127,9 @@ def run(chk):
         for i in range(n):
             d = rng.choice([1, 2, 2])
             N = rng.randint(1, 4)
-            p = rand_intpt(rng, d, N, maxbond=3, transforms=rng.random() < 0.4, lo=-2, hi=2)
+            # transforms: none / both / only on the input leg / only on the output leg (the last two forced in every run)
+            tr = ["in", "out", True, False][i] if i < 4 else rng.choice([False, False, False, True, True, "in", "out"])
+            p = rand_intpt(rng, d, N, maxbond=3, transforms=tr, lo=-2, hi=2)
             p.dt = rng.choice([None, 0.1, 0.25, 1 / 3])
             # malformed stream: a cap tensor equal to the 1-element NaN array (the sentinel)
             sentinel = rng.random() < 0.1
@@ -144,7 +146,7 @@ def run(chk):
             # a small pool of file names, re-used with overwrite=True: what is imported must be what was exported LAST
             fn = os.path.join(tmp, f"pt_{i % 3}.hdf5")
             pt.export(fn, overwrite=i >= 3)
-            m = {"d": d, "N": N, "dt": p.dt, "ranks": [x.ndim for x in p.mpos], "transforms": p.tin is not None,
+            m = {"d": d, "N": N, "dt": p.dt, "ranks": [x.ndim for x in p.mpos], "transforms": {True: "both", False: "none"}.get(tr, tr),
                  "bonds": [x.shape[1] for x in p.mpos], "sentinel_cap": sentinel}
             for kind in ("file", "simple"):
                 try:
@@ -169,6 +171,7 @@ def run(chk):
                               and all(np.array_equal(imp.get_mpo_tensor(k), pt.get_mpo_tensor(k)) for k in range(N))
                               and all(np.array_equal(imp.get_cap_tensor(k), pt.get_cap_tensor(k)) for k in range(N + 1))
                               and (imp.transform_in is None) == (pt.transform_in is None)
+                              and (imp.transform_out is None) == (pt.transform_out is None)
                               and (pt.transform_in is None or np.array_equal(imp.transform_in, pt.transform_in))
                               and (pt.transform_out is None or np.array_equal(imp.transform_out, pt.transform_out)))
                         if not ok:
